@@ -1,18 +1,13 @@
 use wirefilter::*;
-use serde::de::DeserializeSeed;
 fn main() {
     let mut b = SchemeBuilder::new();
-    b.add_field("n", Type::Int).unwrap();
-    b.add_list(Type::Int, NeverList{}).unwrap();
+    b.add_field("ip", Type::Ip).unwrap();
     let s = b.build();
-    for layers in [1usize, 31, 32, 33, 34, 40, 100] {
-        let mut t = String::from("\"Int\"");
-        for _ in 0..layers { t = format!("{{\"Array\":{t}}}"); }
-        let doc = format!("{{\"$lists\":[{{\"type\":{t},\"data\":{{}}}}]}}");
-        let mut ec = ExecutionContext::<()>::new(&s);
-        let r = std::panic::catch_unwind(std::panic::AssertUnwindSafe(|| ec.deserialize(&mut serde_json::Deserializer::from_str(&doc)).map_err(|e| e.to_string())));
-        println!("{layers}: {:?}", r.map_err(|_| "PANIC"));
-        let r = std::panic::catch_unwind(|| serde_json::from_str::<Type>(&t).map_err(|e| e.to_string()));
-        println!("  type: {:?}", r.map_err(|_| "PANIC").map(|r| r.map(|_| "ok")));
+    for t in ["255", "1.2", "1.2.3", "1.2.3/24", "10/8", "1.2.3.04", "010.1.1.1", "1.2.3.4/032", "::1/0128", "1", "0", "4294967295", "0x10", "1.2.3.4.5", "1..2", "255..256", "::ffff:1.2.3", "a::/16", "1.2.3.4/32", "1.2.3.0/24"] {
+        let f = format!("ip in {{{t}}}");
+        match s.parse(&f) {
+            Ok(a) => println!("{t:>14} => {}", serde_json::to_string(&a).unwrap()),
+            Err(e) => println!("{t:>14} => ERR {}", e.to_string().lines().last().unwrap_or("")),
+        }
     }
 }
